@@ -569,7 +569,8 @@ func ExtendVoucher[T protocol.PublicKeyOrChain](v *Voucher, owner crypto.Signer,
 	if err != nil {
 		return nil, err
 	}
-	xv.Entries = append(xv.Entries, *entry)
+	// Never append in place: the entries' backing array is shared with v and with earlier extensions of v
+	xv.Entries = append(xv.Entries[:len(xv.Entries):len(xv.Entries)], *entry)
 	return xv, nil
 }
 
